@@ -173,8 +173,8 @@ package platform
 //@ ghost stepErr error
 //@ func (*onXDefinitions).asNetworkOnX$1 [C06 C17]
 //@   maypanic
-//@   requires d.Channel != nil && RI(d.Channel.Q) && d.Channel.PromptSearchDepth >= 0 && d.DefaultDesiredPriv != ""
-//@   loop 1 invariant RI(d.Channel.Q) && rangeindex < len(val(o))
+//@   requires d.Channel != nil && RI(d.Channel.Q) && d.Channel.PromptSearchDepth >= 0 && d.DefaultDesiredPriv != "" && graphOK(d)
+//@   loop 1 invariant RI(d.Channel.Q) && rangeindex < len(val(o)) && graphOK(d)
 //@   loop 1 set stepErr = nil
 //@   after call channelWrite#1 set stepErr = result
 //@   after call WriteReturn#1 set stepErr = result
